@@ -39,6 +39,31 @@ def handle (op : String) (inp go : Sexp) : Option Reply :=
       let enc := encOutcome (encPair encG2 (encOutcome encMCoords))
       let g ← decOutcome (decPair decG2 (decOutcome mcoords)) go
       pure ⟨(enc m).toStr, verdictOf (holdsMPoint l c g)⟩
+  | "C01.newflat.mpoint", .list [l, f, e] => do
+      -- NewMultiPointFlat(layout, flat[, WithEnds(ends)]): stored representation and Coords()
+      let l ← nat l; let f ← coord f
+      let e ← optOf (listOf nat) e
+      let g := MPoint.newFlat l f e
+      let m : Outcome (G2 UInt64 × Outcome (List (Option (List UInt64)))) := .ok (g, MPoint.coords g)
+      let enc := encOutcome (encPair encG2 (encOutcome encMCoords))
+      -- oracle: without explicit ends over whole coordinates the members are exactly the coordinates
+      let v : String :=
+        match e with
+        | some _ => "na"
+        | none =>
+          let st := Layout.stride l
+          if st = 0 || f.length % st != 0 then "na"
+          else
+            let rec chunks : Nat → List UInt64 → List (List UInt64)
+              | 0, _ => []
+              | n + 1, xs => xs.take st :: chunks n (xs.drop st)
+            let want : List (Option (List UInt64)) := (chunks (f.length / st) f).map some
+            match decOutcome (decPair decG2 (decOutcome mcoords)) go with
+            | some (.ok (gg, .ok cs)) =>
+                verdictOf (cs == want && gg.wellFormed && mpointEndsOK gg.stride gg.ends 0)
+                  "NewMultiPointFlat result is not the multipoint of its coordinates"
+            | _ => "FAIL NewMultiPointFlat result unreadable or Coords() failed"
+      pure ⟨(enc m).toStr, v⟩
   | _, _ => none
 
 end GeomVerif.Driver.C01
